@@ -53,6 +53,7 @@ func checkC02(ctx *Ctx, r *Report) {
 	c10SeventhHunt(ctx, r)                // the branch of a union that holds a numeric default: `Any: (func (input unknown) …)` does not type-check
 	c10GoNestedOverrideRecurses(ctx, r)   // a struct default holding another struct: `Inner: map[string]interface {}{…}` does not type-check
 	c16FourthHunt(ctx, r)                 // a union branch referring to a constant: the Go builder does not type-check
+	c01SeventhRound(ctx, r, false)        // OpenAPI nullable object components: `type Inner *struct{…}`, `&Inner{}`
 	c11SeventhRound(ctx, r, false)        // packages called typing / enum / global: the Python modules do not parse
 	c11SixthRound(ctx, r)                 // objects that end up with one identifier; modules hidden by the locals of the generated methods
 	c01GoTemplateVariablesEscaped(ctx, r) // a union branch called Raw / Json: the decoders do not compile
